@@ -69,21 +69,18 @@ def markedCells (k : Kernel) : Kernel :=
 /-- TopologyKernel.hh:899-904 -/
 def enableAllBU (k : Kernel) : Kernel := ((k.enableVBU true).enableEBU true).enableFBU true
 
-/-- impl.hh:82-86: faces none of whose halffaces has an incident cell -/
+/-- impl.hh:82-86: faces none of whose halffaces has an incident cell (the two `continue`s) -/
 def manifoldFaces (k : Kernel) : Kernel :=
   (List.range k.nF).foldl (fun k f =>
-    if k.fDeleted f then k
-    else if (k.cellOf (heOf f 0)).isSome then k
-    else if (k.cellOf (heOf f 1)).isSome then k
-    else k.deleteFace f) k
+    if !k.fDeleted f && (k.cellOf (heOf f 0)).isNone && (k.cellOf (heOf f 1)).isNone then k.deleteFace f else k) k
 /-- impl.hh:87-91: `valence(eh)` = size of the halfface list of halfedge 0 (TopologyKernel.hh:719-724) -/
 def manifoldEdges (k : Kernel) : Kernel :=
   (List.range k.nE).foldl (fun k e =>
-    if k.eDeleted e then k else if (k.hfsOf (heOf e 0)).length == 0 then k.deleteEdge e else k) k
+    if !k.eDeleted e && (k.hfsOf (heOf e 0)).length == 0 then k.deleteEdge e else k) k
 /-- impl.hh:92-96: `valence(vh)` = number of outgoing halfedges (TopologyKernel.hh:711-716) -/
 def manifoldVerts (k : Kernel) : Kernel :=
   (List.range k.nV).foldl (fun k v =>
-    if k.vDeleted v then k else if (k.outOf v).length == 0 then k.deleteVertex v else k) k
+    if !k.vDeleted v && (k.outOf v).length == 0 then k.deleteVertex v else k) k
 
 /-- impl.hh:56-98: everything before the collection -/
 def markPhase (k : Kernel) (man : Bool) : Kernel :=
